@@ -37,7 +37,7 @@ class SimThread(object):
                  "daemon", "state", "wait_on", "timed_out", "wait_token",
                  "_baton", "exc", "exc_tb", "lines_since_prim", "steps",
                  "started_at", "ended_at", "library", "_real_started",
-                 "block_since", "result", "priority", "stall_plan", "last_ran")
+                 "block_since", "result", "priority", "stall_plan", "last_ran", "group")
 
     def __init__(self, sim, target=None, name=None, args=(), kwargs=None,
                  daemon=None, role=None, library=False):
@@ -67,6 +67,9 @@ class SimThread(object):
         self.result = None
         self.priority = 0
         self.last_ran = 0
+        # threads inherit the "group" of their creator (lets a harness keep a bystander node's
+        # threads and sockets apart from those of the node under test)
+        self.group = getattr(getattr(sim, "cur", None), "group", None)
         self.stall_plan = sorted(sim.stall_plan.get(self.role, ())) if sim.stall_plan else None
         sim.threads.append(self)
 
@@ -541,7 +544,7 @@ class Sim(object):
         first live thread whose role contains role_part has executed
         steps_from_now more steps."""
         for t in self.threads:
-            if role_part in t.role and t.state not in (DONE, NEW):
+            if role_part in t.role and t.state not in (DONE, NEW) and not t.group:
                 self.step_triggers.append([t, t.steps + steps_from_now, cb])
                 if t.stall_plan is None:
                     t.stall_plan = []
